@@ -1,5 +1,7 @@
 pub mod c01;
 pub mod c03;
+pub mod c04;
+pub mod c05;
 pub mod c11;
 pub mod c12;
 pub mod front;
@@ -7,6 +9,7 @@ pub mod c13;
 pub mod c15;
 pub mod c16;
 pub mod c19;
+pub mod c20;
 
 use crate::gast;
 use crate::ggen::Case;
@@ -48,12 +51,15 @@ pub fn run(id: &str, tier: Tier, seed: u64) -> Option<Report> {
     Some(match id {
         "C01" => c01::run(tier, seed),
         "C03" => c03::run(tier, seed),
+        "C04" => c04::run(tier, seed),
+        "C05" => c05::run(tier, seed),
         "C11" => c11::run(tier, seed),
         "C12" => c12::run(tier, seed),
         "C13" => c13::run(tier, seed),
         "C15" => c15::run(tier, seed),
         "C16" => c16::run(tier, seed),
         "C19" => c19::run(tier, seed),
+        "C20" => c20::run(tier, seed),
         _ => return None,
     })
 }
@@ -62,12 +68,15 @@ pub fn replay(id: &str, phase: &str, tape: &[u16], seed: u64) -> Option<Report> 
     Some(match id {
         "C01" => c01::replay(phase, tape, seed),
         "C03" => c03::replay(phase, tape, seed),
+        "C04" => c04::replay(phase, tape, seed),
+        "C05" => c05::replay(phase, tape, seed),
         "C11" => c11::replay(phase, tape, seed),
         "C12" => c12::replay(phase, tape, seed),
         "C13" => c13::replay(phase, tape, seed),
         "C15" => c15::replay(phase, tape, seed),
         "C16" => c16::replay(phase, tape, seed),
         "C19" => c19::replay(phase, tape, seed),
+        "C20" => c20::replay(phase, tape, seed),
         _ => return None,
     })
 }
